@@ -6,6 +6,9 @@
 package main
 
 import (
+	"bytes"
+	"crypto/sha256"
+	"encoding/hex"
 	"flag"
 	"fmt"
 	"os"
@@ -19,9 +22,11 @@ import (
 	"github.com/pgavlin/dawn/internal/verif/vlib"
 	"github.com/pgavlin/dawn/internal/verif/vsched"
 	"github.com/pgavlin/dawn/label"
+	"github.com/pgavlin/dawn/pickle"
 )
 
 var fFree = flag.Int("free", 0, "race pass: load every graph this many times on the real Go scheduler (binary built with -race, no sync rewriting)")
+var fAs = flag.String("as", "C06", "report under this property id; with C02 only the load-order independence of fingerprints is reported")
 var fOnly = flag.String("only", "", "debug: only graphs whose description contains this")
 
 // files: 0=//:BUILD.dawn 1=//p1:BUILD.dawn 2=//p2:BUILD.dawn 3=//:h1.dawn 4=//:h2.dawn (5=//p3:BUILD.dawn)
@@ -122,7 +127,13 @@ func (g graph) write(root string) {
 		fmt.Fprintf(&b, "%s = %d\n", fileSym[i], i)
 		if isBuild[i] {
 			fmt.Fprintf(&b, "f = parse_flag(\"flag%d\", default=\"x\")\n", i)
-			fmt.Fprintf(&b, "def _t():\n    pass\ntarget(name=\"t\", function=_t)\n")
+			// the target's function refers to everything this file loaded, so that its fingerprint
+			// covers values that arrive through the (interleaved) module loads
+			refs := []string{fileSym[i]}
+			for _, j := range g.out(i) {
+				refs = append(refs, fileSym[j])
+			}
+			fmt.Fprintf(&b, "def _t():\n    x = [%s]\ntarget(name=\"t\", function=_t)\n", strings.Join(refs, ", "))
 		}
 		p := filepath.Join(root, filePath[i])
 		must(os.MkdirAll(filepath.Dir(p), 0o755))
@@ -157,6 +168,7 @@ type outcome struct {
 	ev      *events
 	targets []string
 	flags   []string
+	prints  map[string]string // target label -> hash of its function environment encoding
 }
 
 func runOnce(root string, g graph, prefix []int, trace bool) *outcome {
@@ -167,8 +179,18 @@ func runOnce(root string, g graph, prefix []int, trace bool) *outcome {
 		proj, err := dawn.Load(root, &dawn.LoadOptions{Events: o.ev})
 		o.err, o.ret = err, true
 		if err == nil {
+			o.prints = map[string]string{}
 			for _, t := range proj.Targets() {
 				o.targets = append(o.targets, t.Label().String())
+				if fn := dawn.VerifTargetFunction(t); fn != nil {
+					var buf bytes.Buffer
+					if err := pickle.NewEncoder(&buf, pickle.PicklerFunc(dawn.VerifNewEnvPickler())).Encode(fn); err != nil {
+						o.prints[t.Label().String()] = "error: " + err.Error()
+					} else {
+						h := sha256.Sum256(buf.Bytes())
+						o.prints[t.Label().String()] = hex.EncodeToString(h[:8])
+					}
+				}
 			}
 			for _, f := range proj.Flags() {
 				o.flags = append(o.flags, f.Name)
@@ -360,7 +382,8 @@ type replayFile struct {
 }
 
 func main() {
-	r := vlib.Start("C06")
+	flag.Parse()
+	r := vlib.Start(*fAs)
 	if *fFree > 0 {
 		// race pass: real goroutines, real sync; the detector reports unsynchronised accesses
 		n := 0
@@ -451,10 +474,26 @@ func main() {
 		root := filepath.Join(r.Scratch, "proj")
 		g.write(root)
 		outs := map[string]bool{}
+		var basePrints map[string]string
 		ex := &vsched.Explorer{Bound: j.bound, Prune: true, MaxExecs: 400_000}
 		ex.Run = func(prefix []int) *vsched.Result {
 			o := runOnce(root, g, prefix, false)
 			bad := verdicts(g, o)
+			if *fAs == "C02" {
+				bad = nil // only the fingerprint oracle below is C02's
+			}
+			if o.err == nil && o.ret {
+				if basePrints == nil {
+					basePrints = o.prints
+				} else {
+					for l, h := range o.prints {
+						if basePrints[l] != h {
+							bad = append(bad, fmt.Sprintf("fingerprint-depends-on-load-order|the fingerprint of %s is %s under this interleaving of the module loads and %s under the first one", l, h, basePrints[l]))
+						}
+					}
+				}
+				r.Add("fingerprints_compared", int64(len(o.prints)))
+			}
 			errs := ""
 			if o.err != nil {
 				errs = "err"
@@ -463,6 +502,20 @@ func main() {
 			if len(bad) > 0 {
 				o2 := runOnce(root, g, o.res.Choices, true)
 				b2 := verdicts(g, o2)
+				if *fAs == "C02" {
+					b2 = nil
+					for l, h := range o2.prints {
+						if basePrints != nil && basePrints[l] != h {
+							b2 = append(b2, "fingerprint-depends-on-load-order|")
+						}
+					}
+					if len(b2) > 1 {
+						b2 = b2[:1]
+					}
+					if len(bad) > 1 {
+						bad = bad[:1]
+					}
+				}
 				if sigs(b2) != sigs(bad) {
 					vlib.Fatalf("violation did not reproduce on replay: %v vs %v in %s", bad, b2, g)
 				}
@@ -474,7 +527,7 @@ func main() {
 				}
 				for _, b := range bad {
 					p := strings.SplitN(b, "|", 2)
-					r.Violation("C06:"+p[0], fmt.Sprintf("%s [%s] schedule=%v", p[1], g, o.res.Choices), replayFile{g, files, o.res.Choices, j.bound, bad, o2.ev.order, o2.res.Logs})
+					r.Violation(*fAs+":"+p[0], fmt.Sprintf("%s [%s] schedule=%v", p[1], g, o.res.Choices), replayFile{g, files, o.res.Choices, j.bound, bad, o2.ev.order, o2.res.Logs})
 				}
 				o.res.Points = nil
 			}
